@@ -36,6 +36,7 @@ inductive Op where
   | lock (t : Nat) | unlock (t : Nat) | get (t : Nat) | reserve (t : Nat) | stage (t : Nat)
   | logPre (t : Nat) | flip (t : Nat) | undo (t : Nat) | crash (t : Nat)
   | recover (t : Nat)     -- priority rollback of a crashed transaction by someone else
+  | restore (t : Nat)     -- a live transaction's own priority rollback after its phase 2 failed: the flip is taken back
 deriving Repr, DecidableEq, Inhabited
 
 def Sys.setTxn (s : Sys) (t : Nat) (x : Txn) : Sys := { s with txns := fun k => if k = t then x else s.txns k }
@@ -103,6 +104,15 @@ def step (disciplined : Bool) (s : Sys) : Op → Sys
         if i.version = s.h.version ∨ i.version = s.h.version - 1 then
           { s with h := i, plog := fun k => if k = t then none else s.plog k, lock := if s.lock == some t then none else s.lock }
         else s
+    else s
+
+  | .restore t =>
+    if held s t disciplined then
+      match s.plog t with
+      | none => s
+      | some i =>
+        { (s.setTxn t { s.txns t with installed := false, img := some i }) with
+            h := i, plog := fun k => if k = t then none else s.plog k, flips := s.flips.filter (fun p => p.1 != t) }
     else s
 
 def run (disciplined : Bool) (s : Sys) (ops : List Op) : Sys := ops.foldl (step disciplined) s
